@@ -47,7 +47,7 @@ func main() {
 		noEvid   = flag.Bool("noevidence", false, "do not write the evidence file")
 		replayF  = flag.String("replay", "", "replay one counterexample file natively and exit")
 		cpuProf  = flag.String("cpuprofile", "", "write a CPU profile")
-		xcheck   = flag.Int("xcheck", -1, "re-discharge one obligation in N (by hash) on z3 5.1 and cvc5; 0 = none; default 256 (quick), 16 (thorough)")
+		xcheck   = flag.Int("xcheck", -1, "re-discharge one obligation in N (by hash) on z3 5.1 and cvc5; 0 = none; default 16 (quick), 2 (thorough)")
 		updBase  = flag.Bool("update-baseline", false, "record the assertions reached per harness as the reachability baseline (vacuity guard)")
 	)
 	flag.Parse()
@@ -88,10 +88,10 @@ func main() {
 		cfg.Tier = 1
 		cfg.Witnesses = 6
 		cfg.Deadline = time.Now().Add(40 * time.Minute)
-		cfg.xcheckEvery = 16
+		cfg.xcheckEvery = 2
 	} else {
 		cfg.Witnesses = 2
-		cfg.xcheckEvery = 256
+		cfg.xcheckEvery = 16
 		cfg.Deadline = time.Now().Add(8 * time.Minute)
 	}
 	if *budget > 0 {
@@ -489,18 +489,18 @@ func main() {
 var tierGlobal int
 
 var assumptions = []string{
-	"stub contracts of DESIGN.md section 4: KV store = finite map with ascending snapshot iterators; codec = round-trip identity up to nil/empty normalisation; bank = fails iff coins invalid or balance insufficient, no vesting locks; params = any values accepted by Params.Validate; sdk.Int/Dec = exact integers (18-digit half-even Mul, truncating TruncateInt), 255-bit overflow panic outside the claim",
+	"stub contracts of DESIGN.md section 4: KV store = finite map with ascending snapshot iterators; codec = round-trip identity up to nil/empty normalisation; bank = fails iff coins invalid or balance insufficient, no vesting locks; params = any values accepted by Params.Validate; sdk.Int/Dec = exact integers (18-digit half-even Mul, truncating TruncateInt); the 255-bit / 315-bit overflow panic is modelled in the harnesses named *Huge and C20_RangeModel (message amounts free up to 2^255, state amounts below 2^127) and outside the claim elsewhere; a time outside years 1..9999 fails to marshal",
 	"bech32 modelled as an injective NUL-free lower-case encoding; user addresses differ from module-account addresses",
-	"time.Time = integer nanoseconds in years 1..9999; heights, timeouts and durations below 2^62 (no wrap of h+t)",
+	"time.Time = integer nanoseconds in years 1..9999 (promotion times of a message's pricing text from year 0000); heights and timeouts below 2^40..2^62 (no wrap of h+t); the arbitration and complaint periods any positive int64",
 	"pricing texts: integer base-denomination price, promotions as allowed by the pricing JSON schema; other denominations (exchange-rate branch) outside the claim",
 	"bounds on list lengths and record counts as stated per harness (see bounds)",
 }
 
 func boundsText(tier string) string {
 	if tier == "thorough" {
-		return "thorough tier: see DESIGN.md section 6 (contexts<=3, providers per context<=3, promotions<=2/3); loops unroll on concrete lengths; step budget 2e7 instructions/path and path budget act as unwinding assertions"
+		return "thorough tier: see DESIGN.md sections 6, 16 and 18 (contexts<=3, providers per context<=3, promotions<=2/3); loops unroll on concrete lengths; step budget 2e7 instructions/path and path budget act as unwinding assertions"
 	}
-	return "quick tier: see DESIGN.md section 6 (contexts<=2, providers per context<=2, promotions<=1/2); loops unroll on concrete lengths; step budget 2e7 instructions/path and path budget act as unwinding assertions"
+	return "quick tier: see DESIGN.md sections 6, 16 and 18 (contexts<=2, providers per context<=2, promotions<=1/2); loops unroll on concrete lengths; step budget 2e7 instructions/path and path budget act as unwinding assertions"
 }
 
 // harnessBounds gives the stated bound of each harness run (harness/bounds.json, keyed by name pattern)
